@@ -167,3 +167,22 @@ Proof.
   - replace m with (2 * h - (2 * h - m))%nat at 1 by lia. apply G. lia.
 Qed.
 End LegRow.
+
+(* ---------------- constructor arguments: supplied values are used as supplied ---------------- *)
+From CV Require Import Model.C17_More.
+Lemma with_default_spec {A} (supplied : option A) (d : A) :
+  (forall v, supplied = Some v -> with_default supplied d = v) /\ (supplied = None -> with_default supplied d = d).
+Proof. split; [intros v -> | intros ->]; reflexivity. Qed.
+
+Lemma cubic_args_respected (a : cubic_args) :
+  (forall v, ca_data a = Some v -> cp_data (cubic_construct a) = v) /\
+  (ca_data a = None -> cp_data (cubic_construct a) = 1%Qc) /\
+  (forall s, ca_noise_std a = Some s -> cp_cov (cubic_construct a) = (s * s)%Qc) /\
+  (ca_noise_std a = None -> cp_cov (cubic_construct a) = 1%Qc).
+Proof.
+  destruct a as [ns da]; cbn. repeat split.
+  - intros v ->. reflexivity.
+  - intros ->. reflexivity.
+  - intros s ->. reflexivity.
+  - intros ->. cbn. apply Qc_is_canon. reflexivity.
+Qed.
